@@ -90,16 +90,25 @@ impl Exec {
     /// read the five shapes, recover the phase counter from the up-saw, evaluate the C10 invariant
     #[inline(always)]
     fn observe(&mut self, ctx: &mut Ctx) -> Obs {
-        let o = self.read_all();
-        let raw = (o.up as f64 + 1.0) * 8388608.0;
+        // the up-saw first: it tells where the phase is; the other shapes are only read at a valid phase
+        // (except in the chaos profile, whose business is exactly whether those reads panic)
+        let up = real!(self.l.get(Waveshape::UpSaw));
+        let raw = (up as f64 + 1.0) * 8388608.0;
         let on_grid = raw >= 0.0 && raw < TWO24 && raw.fract() == 0.0;
         ctx.check(10, "up_saw_is_two_phase_minus_one", on_grid, || {
-            format!("up-saw {:e} is not 2*phase-1 for any 24-bit phase in [0,1) ((v+1)*2^23 = {})", o.up, raw)
+            format!("up-saw {:e} is not 2*phase-1 for any 24-bit phase in [0,1) ((v+1)*2^23 = {})", up, raw)
+        });
+        ctx.check(11, "phase_stays_in_unit_interval", on_grid, || {
+            format!("the phase read back from the up-saw ({:e} -> {} counts) is not a 24-bit phase in [0,1)", up, raw)
         });
         if !on_grid {
             self.phi_valid = false;
-            return o;
+            if ctx.chaos {
+                return self.read_all();
+            }
+            return Obs { sine: 0.0, tri: 0.0, up, down: -up, sq: 0.0 };
         }
+        let o = self.read_all();
         let phi = raw as u32;
         self.phi = phi;
         self.phi_valid = true;
